@@ -11,6 +11,7 @@ EXPLANATION = (
     "destroyed outputs dropped. R5 create_next_state covers every transaction, every output index, every input, and records the transaction. R6 malformed ⇒ Err(MalformedTx) for every element. "
     "R7 coin-store key agreement between insert_coin / get_coin / remove_coin."
     " R5: an insert inside a loop over an adapter chain built from closures is undecided, except for the one shape that is read: a position taken after a filter (`outputs.iter().filter(..).enumerate()`) used as output index."
+    " R1's interior-mutability inventory includes concurrent / lazily initialised containers (DashMap, OnceLock, OnceCell, Lazy): behind an Arc they are shared by every clone of a state. Imports C01.R2 (which cells of the balance check are exempt)."
 )
 NOT_DECIDED = ["equality of the resulting coin *set* with a reference model over whole histories (runtime comparison)", "order dependence of insert/remove is decided under C03.R2"]
 ASSUMPTIONS = ["Transaction::is_well_formed as in melstructs 0.3.3", "novasmt's content-addressed store is unobservable through tree roots"]
